@@ -117,7 +117,7 @@ PROPS["C19"] = dict(num=19, labs=["par", "drv", "eng"], rule=PAR_RULE + " " + DR
     trusted_base=PAR_TRUSTED + DRV_TRUSTED, assumptions=[])
 PROPS["C20"] = dict(num=20, labs=["par"], rule=PAR_RULE, nontrivial="fallback-selector and real-run cases (class % 8 in {4, 5})", trivial_classes=[],
     signatures={"20.1": "method sack produced a SYN trace / neither a SACK trace nor an error", "20.2": "method syn attempted SACK (opened a TCP connection)", "20.3": "prefer_sack: SYN fallback taken although SACK is available, or not taken although it is unavailable",
-                "20.4": "prefer_sack: a non-capability SACK failure was masked or lost its cause", "20.9": "crashed"},
+                "20.4": "prefer_sack: a non-capability SACK failure was masked or lost its cause", "20.5": "a traceroute run of a request was started with a TCP method other than the requested one", "20.6": "an end-to-end probe was started with a SACK method", "20.9": "crashed"},
     trusted_base=PAR_TRUSTED, assumptions=["the loopback listener's accept count equals the TCP connections the run opened"])
 
 ISO_RULE = ("Allocator lab: packets.AllocPacketID sequences of 1..12 blocks (sizes incl. 1, 30, 255) from counter values at and around the 2^16 and 2^32 wraps, sequentially and from concurrent goroutines; icmp.nextEchoID sequences. "
